@@ -308,6 +308,24 @@ func (m *ModeManager) drSwitchToSyncRecoverWithLock() error {
 func (m *ModeManager) drSwitchToSync() error {
 	m.Lock()
 	defer m.Unlock()
+	return m.drSwitchToSyncWithLock()
+}
+
+// drSwitchToSyncFrom switches to sync only if the manager is still in the
+// sync_recover state (same state id, still dr-auto-sync mode) whose recovery
+// was found complete: a configuration update may have changed the state since
+// the regions were scanned.
+func (m *ModeManager) drSwitchToSyncFrom(recoverID uint64) error {
+	m.Lock()
+	defer m.Unlock()
+	if m.config.ReplicationMode != modeDRAutoSync || m.drAutoSync.State != drStateSyncRecover || m.drAutoSync.StateID != recoverID {
+		log.Info("state changed during recovery check, skip switching to sync state", zap.String("replicate-mode", modeDRAutoSync))
+		return nil
+	}
+	return m.drSwitchToSyncWithLock()
+}
+
+func (m *ModeManager) drSwitchToSyncWithLock() error {
 	id, err := m.cluster.AllocID()
 	if err != nil {
 		log.Warn("failed to switch to sync state", zap.String("replicate-mode", modeDRAutoSync), errs.ZapError(err))
@@ -349,6 +367,12 @@ func (m *ModeManager) drGetState() string {
 	m.RLock()
 	defer m.RUnlock()
 	return m.drAutoSync.State
+}
+
+func (m *ModeManager) drGetStateAndID() (string, uint64) {
+	m.RLock()
+	defer m.RUnlock()
+	return m.drAutoSync.State, m.drAutoSync.StateID
 }
 
 const (
@@ -406,13 +430,13 @@ func (m *ModeManager) tickDR() {
 		m.drSwitchToSyncRecover()
 	}
 
-	if m.drGetState() == drStateSyncRecover {
+	if state, recoverID := m.drGetStateAndID(); state == drStateSyncRecover {
 		m.updateProgress()
 		progress := m.estimateProgress()
 		drRecoverProgressGauge.Set(float64(progress))
 
 		if progress == 1.0 {
-			m.drSwitchToSync()
+			m.drSwitchToSyncFrom(recoverID)
 		} else {
 			m.updateRecoverProgress(progress)
 		}
